@@ -382,7 +382,7 @@ def render(exp, redundant=False):
 # ------------------------------------------------------------------------------------------------ generators
 IDENTS = ["uid", "age", "country", "x", "Y", "_z", "order_id", "index", "not_active", "android", "iffy", "elsewhere", "weighted_sum",
           "returned", "definition", "salty", "splitters2", "a1", "field_1", "inn", "oracle"]
-STRINGS = ["A", "B", "control", "variant_a", "02134", "inf", "1e5", "", "it's", "C:\\temp", "caf\u00e9", "a b", "nan", "None", "x,y", "{}", "%s", "(", "#", "\\", "\\n", "a\\", "True", "\U0001F680", "x\U0001D11E", " lead", "trail ", "\u3000", "checkout_button_colour_experiment_2024_q1", "checkout_button_colour_experiment_2024_q2"]
+STRINGS = ["A", "B", "control", "variant_a", "02134", "inf", "1e5", "", "it's", "C:\\temp", "caf\u00e9", "a b", "nan", "None", "x,y", "{}", "%s", "(", "#", "\\", "\\n", "a\\", "True", "\U0001F680", "x\U0001D11E", " lead", "trail ", "\u3000", "checkout_button_colour_experiment_2024_q1", "checkout_button_colour_experiment_2024_q2", "v1\rimport builtins; builtins.C13_INJECTED = 1", "a\x0cb", "/*", "*/", "//"]
 INTS = [0, 1, 2, 3, 18, 21, 100, 9007199254740993, 10 ** 30, -1, -5]
 FLOATS = [0.5, 1.5, 3.4, 0.1, 2.0, -0.25, 1e-9, 1e9]
 WEIGHTS = [1, 2, 3, 0, 0.5, 3.4, 5, 1e-9, 1e9, 0.1, 10, 1234567, 7654321, 0.1234567]
